@@ -88,6 +88,20 @@ def gen_partition(rng, start8, end8, n):
     return [p / 8.0 for p in pts]
 
 
+def gen_hot_case(rng):
+    """warm detector, large pixels, large dark-current figure of merit and a full well capacity in the characteristics: the
+    dark charge of one long interval is far above the full well (no full-well model is in the pipeline)"""
+    c = gen_case(rng, time_mode="grid8")
+    rows, cols = c["rows"], c["cols"]
+    dc = gen_model(rng, "dark_current", rows, cols)
+    dc["args"]["figure_of_merit"] = rng.choice([10.0, 30.0, 100.0])
+    c["charge"] = [dc] + c["charge"][:1]
+    c["temperature"] = rng.choice([300.0, 310.0, 320.0])
+    c["hot"] = {"pixel_size": rng.choice([18.0, 25.0, 30.0]), "full_well_capacity": rng.choice([20000, 30000, 100000])}
+    c["collect"] = True
+    return c
+
+
 def gen_case(rng, time_mode=None):
     rows, cols = rng.choice([2, 4, 4, 6]), rng.choice([2, 4, 6, 8])
     nph = rng.choice([0, 1, 1, 2, 2, 3])
@@ -167,6 +181,7 @@ def gen_case(rng, time_mode=None):
         "reuse_order": rng.sample(range(len(parts) + 3), len(parts) + 3),
         "time_exact": time_exact and c in (2.0, 0.5, 3.0, 4.0, 1.5, 2.0 ** -10, 2.0 ** -20),
         "scale_c": c,
+        "dask_check": rng.random() < 0.35,  # also run two non-destructive partitions through a dask Observation
     }
 
 
@@ -197,9 +212,13 @@ def real_args(args, tmpdir, tag, seq_as="tuple"):
 def make_det(case):
     import pyx
 
-    return pyx.make_detector(case["detector"], case["rows"], case["cols"],
-                             environment={"temperature": case["temperature"]},
-                             characteristics={"quantum_efficiency": (case["qe"] or {}).get("value", 0.9)})
+    hot = case.get("hot") or {}
+    ch = {"quantum_efficiency": (case["qe"] or {}).get("value", 0.9)}
+    if "full_well_capacity" in hot:
+        ch["full_well_capacity"] = hot["full_well_capacity"]
+    geo = {"pixel_vert_size": hot["pixel_size"], "pixel_horz_size": hot["pixel_size"]} if "pixel_size" in hot else {}
+    return pyx.make_detector(case["detector"], case["rows"], case["cols"], geometry=geo,
+                             environment={"temperature": case["temperature"]}, characteristics=ch)
 
 
 def call_model(case, m, tmpdir, tag, dt, scale):
@@ -255,6 +274,26 @@ def run_exposure(case, tmpdir, times, start, nd, det=None, pipe=None):
     return [[float(v) for v in arr[i].ravel()] for i in range(arr.shape[0])]
 
 
+def run_observation_dask(case, tmpdir, times, start, nd):
+    """the same exposure as ONE parameter set of an Observation run through the dask path -> pixel slices per readout"""
+    import dask
+    import numpy as np
+    import pyx
+    import pyxel
+    from pyxel.exposure import Readout
+    from pyxel.observation import Observation, ParameterValues
+
+    obs = Observation(parameters=[ParameterValues(key="detector.environment.temperature", values=[case["temperature"]])],
+                      readout=Readout(times=list(times), start_time=start, non_destructive=nd), with_dask=True)
+    with dask.config.set(scheduler="synchronous"):
+        res = pyxel.run_mode(mode=obs, detector=make_det(case), pipeline=pyx.make_pipeline(groups_of(case, tmpdir)),
+                             with_inherited_coords=True)
+        px = res["bucket"]["pixel"].load()
+    px = px.isel({d: 0 for d in px.dims if d not in ("time", "y", "x")})
+    arr = np.asarray(px.transpose("time", "y", "x").to_numpy(), dtype=float)
+    return [[float(v) for v in arr[i].ravel()] for i in range(arr.shape[0])]
+
+
 def run_impl(case):
     import numpy as np
 
@@ -283,6 +322,9 @@ def run_impl(case):
         st2, t2 = c * start, [c * t for t in fine]
         out["d_scaled"] = run_exposure(case, tmpdir, t2, st2, False)
         out["nd_scaled"] = run_exposure(case, tmpdir, t2, st2, True)
+        if case.get("dask_check"):
+            # (b') the single-readout exposure and the finest partition, non-destructive, as runs of a dask Observation
+            out["nd_dask"] = [run_observation_dask(case, tmpdir, t, start, True) for t in (case["partitions"][0], fine)]
         # (c) the same runs once more, one after the other ON ONE detector object, in the case's random order (a user
         # looping over schedules with the detector of the configuration): reused[k] belongs to run order[k]
         import pyx
@@ -349,6 +391,12 @@ def property_predicate(case, impl):
             return ("C17:destructive-proportional",
                     f"destructive frames of {fine} from {case['start']}: frame {i} (duration {st[i]}) is not proportional to frame 0 "
                     f"(duration {st[0]}): {d[i][:3]} vs {d[0][:3]}")
+    for times, frames in zip((case["partitions"][0], case["partitions"][-1]), impl.get("nd_dask") or []):
+        if len(frames) != len(times) or not rows_close(frames[-1], ref, exact):
+            k = next((i for i, (a, b) in enumerate(zip(frames[-1], ref)) if not close(a, b, exact)), 0)
+            return ("C17:nd-partition:dask-observation",
+                    f"non-destructive exposure [{case['start']}, {times[-1]}] run as a dask Observation with {len(times)} readouts: final "
+                    f"charge of pixel {k} is {frames[-1][k]!r} but {ref[k]!r} for the single-readout exposure")
     # the same exposures run one after the other on one detector object must collect what they collect on a fresh one
     # (non-destructive: the final charge depends only on start and end time — not on what the detector did before)
     runs, fresh = runs_of(case), impl_runs(impl)
@@ -404,6 +452,7 @@ def body(ck: common.Check):
     ck.obligations(["PyxelModel.Props.C17"], ["PyxelModel.Drive.C17"])
     n = 120 if ck.tier == "quick" else 1500
     cases = [gen_case(ck.rng) for _ in range(n)]
+    cases += [gen_hot_case(ck.rng) for _ in range(8 if ck.tier == "quick" else 80)]
     impls = pool_map(run_impl, cases)
     reqs, owner = [], []
     for ci, (case, impl) in enumerate(zip(cases, impls)):
@@ -423,6 +472,8 @@ def body(ck: common.Check):
         ck.case(case, nontrivial=("error" not in impl and len(case["partitions"][-1]) >= 2), stream="pipelines")
         ck.count("dyadic" if exact else "tolerance-1e-12")
         ck.count("time-mode=" + case.get("time_mode", "grid8"))
+        ck.count("dask-observation-partitions", int(bool(case.get("dask_check"))))
+        ck.count("hot-full-well", int(bool(case.get("hot"))))
         ck.count(f"scale-c={case['scale_c']:g}")
         for m in case["photon"] + case["charge"]:
             ck.count("model=" + m["kind"])
